@@ -76,14 +76,18 @@ struct Peer {
     id: u32,
     listener: TcpListener,
     conn: Option<Framed<TcpStream, LengthDelimitedCodec>>,
-    /// frames received and not yet ACKed (oldest first)
-    held: Vec<Vec<u8>>,
+    /// frames received and not yet ACKed (oldest first), with the index of the batch they belong to
+    held: Vec<(usize, Vec<u8>)>,
+    /// batch index to attribute the next received frame to
+    next_batch: usize,
 }
 
 /// Per batch: (bytes broadcast, for each release step the batches that came out of the quorum waiter)
 pub struct RealRun {
     pub threshold: u32,
     pub per_batch: Vec<(Vec<u8>, Vec<Vec<Vec<u8>>>, Vec<String>)>,
+    /// per batch, per release: the batch whose frame that ACK answered (None: the peer held nothing)
+    pub attribution: Vec<Vec<Option<usize>>>,
 }
 
 async fn pump(peers: &mut Vec<Peer>) {
@@ -97,7 +101,8 @@ async fn pump(peers: &mut Vec<Peer>) {
             }
             if let Some(f) = p.conn.as_mut() {
                 while let Some(Some(Ok(b))) = f.next().now_or_never() {
-                    p.held.push(b.to_vec());
+                    p.held.push((p.next_batch, b.to_vec()));
+                    p.next_batch += 1;
                     progress = true;
                 }
             }
@@ -115,7 +120,7 @@ pub async fn exec_real(case: &Case) -> RealRun {
     let threshold = com.quorum_threshold();
     let mut peers: Vec<Peer> = Vec::new();
     for i in 2..=case.stakes.len() as u32 {
-        peers.push(Peer { id: i, listener: TcpListener::bind(&mempool_addr(i)).await.expect("simnet bind"), conn: None, held: vec![] });
+        peers.push(Peer { id: i, listener: TcpListener::bind(&mempool_addr(i)).await.expect("simnet bind"), conn: None, held: vec![], next_batch: 0 });
     }
     let (tx_transaction, rx_transaction) = channel::<Vec<u8>>(1000);
     let (tx_qw, rx_qw) = channel::<QuorumWaiterMessage>(1000);
@@ -125,6 +130,7 @@ pub async fn exec_real(case: &Case) -> RealRun {
     QuorumWaiter::spawn(com.clone(), com.stake(&me), rx_qw, tx_out);
 
     let mut per_batch = Vec::new();
+    let mut attribution: Vec<Vec<Option<usize>>> = Vec::new();
     for (bi, order) in case.batches.iter().enumerate() {
         let mut errors = Vec::new();
         // one transaction of 32 bytes >= batch_size seals a batch at once
@@ -134,19 +140,21 @@ pub async fn exec_real(case: &Case) -> RealRun {
         if std::env::var("HS_TRACE").is_ok() { eprintln!("sent tx {}", bi); }
         pump(&mut peers).await;
         if std::env::var("HS_TRACE").is_ok() { eprintln!("pumped {}", bi); }
-        // what was broadcast: every peer must hold exactly one new frame, all equal
+        // what was broadcast: every peer must have received exactly one new frame (attributed to this
+        // batch), all equal; frames of EARLIER batches whose ACK was never released stay held in front
         let mut bytes: Option<Vec<u8>> = None;
         for p in &peers {
-            match p.held.last() {
-                Some(f) if p.held.len() == 1 => {
-                    if bytes.as_ref().map_or(false, |b| b != f) {
-                        errors.push(format!("peer {} received different bytes than another peer", p.id));
-                    }
-                    bytes = Some(f.clone());
+            let mine: Vec<&Vec<u8>> = p.held.iter().filter(|(b, _)| *b == bi).map(|(_, f)| f).collect();
+            if mine.len() != 1 || p.next_batch != bi + 1 {
+                errors.push(format!("peer {} received {} frames for batch {} (expected 1)", p.id, mine.len(), bi + 1));
+            } else {
+                if bytes.as_ref().map_or(false, |b| b != mine[0]) {
+                    errors.push(format!("peer {} received different bytes than another peer", p.id));
                 }
-                _ => errors.push(format!("peer {} holds {} frames after the seal (expected 1)", p.id, p.held.len())),
+                bytes = Some(mine[0].clone());
             }
         }
+        let mut acked_for: Vec<Option<usize>> = Vec::new();
         let mut steps: Vec<Vec<Vec<u8>>> = Vec::new();
         let mut now = Vec::new();
         while let Ok(b) = rx_out.try_recv() {
@@ -154,34 +162,35 @@ pub async fn exec_real(case: &Case) -> RealRun {
         }
         steps.push(now); // step 0: before any ACK
         for id in order {
+            // a release ACKs the OLDEST frame the peer still holds: that may be a frame of an earlier
+            // batch (a late ACK), which must not count for this one
+            let mut attributed = None;
             if let Some(p) = peers.iter_mut().find(|p| p.id == *id) {
                 if !p.held.is_empty() {
-                    p.held.remove(0);
+                    let (b, _) = p.held.remove(0);
+                    attributed = Some(b);
                     if let Some(f) = p.conn.as_mut() {
                         let _ = f.send(Bytes::from("Ack")).await;
                     }
                 }
             }
             barrier().await;
-            if std::env::var("HS_TRACE").is_ok() { eprintln!("released {}", id); }
             let mut now = Vec::new();
             while let Ok(b) = rx_out.try_recv() {
                 now.push(b);
             }
             steps.push(now);
+            acked_for.push(attributed);
         }
-        // the silent peers drop what they hold (they stay silent: no ACK is ever sent for it)
-        for p in peers.iter_mut() {
-            p.held.clear();
-        }
+        attribution.push(acked_for);
         per_batch.push((bytes.unwrap_or_default(), steps, errors));
     }
-    RealRun { threshold, per_batch }
+    RealRun { threshold, per_batch, attribution }
 }
 
 /// The Lean model of the quorum waiter on the same committee and ACK order: per batch, per step,
 /// whether the batch is forwarded in that step.
-fn exec_model(model: &mut Model, case: &Case) -> Vec<Vec<bool>> {
+fn exec_model(model: &mut Model, case: &Case, attribution: &[Vec<Option<usize>>]) -> Vec<Vec<bool>> {
     let c = case.stakes.iter().enumerate().map(|(i, s)| format!("({} {})", i + 1, s)).collect::<Vec<_>>().join(" ");
     let _ = model.ask(&format!("(qw init ({}) {})", c, case.stakes[0]));
     let mut out = Vec::new();
@@ -193,9 +202,15 @@ fn exec_model(model: &mut Model, case: &Case) -> Vec<Vec<bool>> {
         let mut steps = Vec::new();
         let r = model.ask(&format!("(qw batch {} ({}))", id, names.join(" ")));
         steps.push(fwd(&r));
-        for peer in order {
-            let r = model.ask(&format!("(qw ack {} {})", id, *peer - 2));
-            steps.push(fwd(&r));
+        for (k, peer) in order.iter().enumerate() {
+            // the ACK completes the handler of the batch whose frame it answers (possibly an earlier one)
+            match attribution.get(bi).and_then(|a| a.get(k)).cloned().flatten() {
+                Some(b) => {
+                    let r = model.ask(&format!("(qw ack {} {})", b as u64 + 1, *peer - 2));
+                    steps.push(fwd(&r));
+                }
+                None => steps.push(false),
+            }
         }
         out.push(steps);
     }
@@ -212,7 +227,8 @@ fn monitor(case: &Case, real: &RealRun) -> Vec<(String, String)> {
         let mut acked = own;
         let mut forwarded_at: Option<usize> = None;
         for (si, got) in steps.iter().enumerate() {
-            if si > 0 {
+            if si > 0 && real.attribution.get(bi).and_then(|a| a.get(si - 1)).cloned().flatten() == Some(bi) {
+                // only an ACK that answers THIS batch's frame counts for it
                 acked += case.stakes[(order[si - 1] - 1) as usize];
             }
             for g in got {
@@ -262,13 +278,43 @@ fn gen_case(rng: &mut SmallRng) -> Case {
     };
     let n = stakes.len() as u32;
     let nb = rng.gen_range(1, 4);
+    let total: u32 = stakes.iter().sum();
+    let threshold = 2 * total / 3 + 1;
     let mut batches = Vec::new();
+    let mut backlog: Vec<u32> = vec![0; n as usize + 1]; // un-ACKed frames of earlier batches per peer
     for b in 0..nb {
         let mut order: Vec<u32> = (2..=n).collect();
         order.shuffle(rng);
-        // every batch but the last must complete (the quorum waiter serves batches one at a time);
-        // the last one may be starved by silent peers
-        if b == nb - 1 {
+        if b < nb - 1 {
+            // every batch but the last must complete (the quorum waiter serves batches one at a time), but
+            // not everybody needs to answer it: the slow peers answer LATER, while the next batch is out
+            let mut acc = stakes[0];
+            let mut keep = 0;
+            for (k, i) in order.iter().enumerate() {
+                if backlog[*i as usize] > 0 {
+                    continue; // its release would answer an older frame
+                }
+                acc += stakes[(*i - 1) as usize];
+                keep = k + 1;
+                if acc >= threshold {
+                    break;
+                }
+            }
+            if acc < threshold {
+                // not completable with fresh peers only: everybody answers everything it holds
+                let mut full = Vec::new();
+                for i in &order {
+                    for _ in 0..=backlog[*i as usize] {
+                        full.push(*i);
+                    }
+                    backlog[*i as usize] = 0;
+                }
+                batches.push(full);
+                continue;
+            }
+            let extra = rng.gen_range(0, order.len() - keep + 1);
+            order.truncate(keep + extra);
+        } else {
             let keep = rng.gen_range(0, order.len() + 1);
             // prefer silencing the heaviest peers: that is where a mis-credited stake shows
             if rng.gen_bool(0.6) {
@@ -276,6 +322,13 @@ fn gen_case(rng: &mut SmallRng) -> Case {
             }
             order.truncate(keep);
             order.shuffle(rng);
+            // some of the peers with an old frame answer twice (old frame, then this one)
+            let twice: Vec<u32> = order.iter().cloned().filter(|i| backlog[*i as usize] > 0 && rng.gen_bool(0.4)).collect();
+            order.extend(twice);
+        }
+        for i in 2..=n {
+            let released = order.iter().filter(|x| **x == i).count() as u32;
+            backlog[i as usize] = (backlog[i as usize] + 1).saturating_sub(released);
         }
         batches.push(order);
     }
@@ -298,11 +351,20 @@ fn run_case(model: Option<&mut Model>, rep: &mut Report, case: &Case, distinct: 
         rep.hit(if fwd { "batch.forwarded" } else { "batch.starved" });
         rep.hit(&format!("acks_released.{}", order.len().min(7)));
     }
+    for (bi, a) in real.attribution.iter().enumerate() {
+        for x in a {
+            match x {
+                Some(b) if *b != bi => rep.hit("ack.late-for-earlier-batch"),
+                Some(_) => rep.hit("ack.for-this-batch"),
+                None => rep.hit("ack.nothing-held"),
+            }
+        }
+    }
     if case.batches.iter().map(|b| b.len()).sum::<usize>() >= 2 {
         distinct.insert(serde_json::to_string(case).unwrap());
     }
     if let Some(model) = model {
-        let m = exec_model(model, case);
+        let m = exec_model(model, case, &real.attribution);
         let r: Vec<Vec<bool>> = real.per_batch.iter().map(|(_, steps, _)| steps.iter().map(|s| !s.is_empty()).collect()).collect();
         if m != r {
             rep.finding("impl_vs_model", "C12:ownbatch-trace", format!("forwarding steps: model {:?} impl {:?}", m, r), replay.clone());
